@@ -171,6 +171,7 @@ type harness struct {
 	ctxs      map[string]context.Context
 	issued    []string
 	over      atomic.Bool
+	extra     []*arrival // deliveries that arrived while another delivery of the same actor was parked
 	evCount   atomic.Int64
 }
 
@@ -416,6 +417,7 @@ func (h *harness) monitor(c *actor.Context) {
 }
 
 var settle = 400 * time.Millisecond
+var grace = 300 * time.Microsecond
 
 func sameGates(p map[string]*arrival, want []Gate) bool {
 	if len(p) != len(want) {
@@ -513,15 +515,32 @@ func runScenario(cfg Config, sc Scenario) *Result {
 	// waitFor: collect arrivals until the observation matches the expectation or the settle time is over
 	waitFor := func(st *Step) bool {
 		deadline := time.Now().Add(settle)
+		var matched time.Time
 		for {
 			pollDone()
 			if sameGates(pending, st.Gates) && reflect.DeepEqual(doneSet(), sortedCopy(st.Done)) && reflect.DeepEqual(spretList(), sortedCopy(st.Spret)) {
-				return true
+				// after an environment action keep listening for a moment: a delivery nobody expects (a second worker
+				// started by the send, say) needs a goroutine to be scheduled before it shows up
+				if st.Op == "grant" || grace == 0 {
+					return true
+				}
+				if matched.IsZero() {
+					matched = time.Now()
+				} else if time.Since(matched) >= grace {
+					return true
+				}
+			} else {
+				matched = time.Time{}
 			}
 			select {
 			case a := <-h.arrive:
+				if old, dup := pending[a.g.A]; dup && old != a {
+					// two deliveries of one actor parked at the same time: keep the first, remember the second
+					h.extra = append(h.extra, a)
+					return false
+				}
 				pending[a.g.A] = a
-			case <-time.After(200 * time.Microsecond):
+			case <-time.After(100 * time.Microsecond):
 			}
 			if time.Now().After(deadline) {
 				return false
@@ -626,7 +645,11 @@ func runScenario(cfg Config, sc Scenario) *Result {
 				for {
 					select {
 					case a := <-h.arrive:
-						pending[a.g.A] = a
+						if old, dup := pending[a.g.A]; dup && old != a {
+							h.extra = append(h.extra, a)
+						} else {
+							pending[a.g.A] = a
+						}
 					default:
 						break collect
 					}
@@ -681,6 +704,9 @@ func runScenario(cfg Config, sc Scenario) *Result {
 	for _, a := range pending {
 		a.reply <- grant{abandon: true}
 	}
+	for _, a := range h.extra {
+		a.reply <- grant{abandon: true}
+	}
 	go func() {
 		for a := range h.arrive {
 			a.reply <- grant{abandon: true}
@@ -697,6 +723,10 @@ func (h *harness) drainUnsteered(pending map[string]*arrival, poll func()) {
 			delete(pending, k)
 			a.release(grant{})
 		}
+		for _, a := range h.extra {
+			a.release(grant{})
+		}
+		h.extra = nil
 		select {
 		case a := <-h.arrive:
 			pending[a.g.A] = a
@@ -718,6 +748,7 @@ func main() {
 	out := flag.String("out", "", "result file (ndjson)")
 	progress := flag.String("progress", "", "file receiving the id of the scenario being run")
 	settleMs := flag.Int("settle-ms", 400, "settle timeout")
+	graceUs := flag.Int("grace-us", 300, "after an environment action, how long to watch for deliveries the behaviour does not predict")
 	only := flag.Int("only", -1, "run only the scenario with this id")
 	from := flag.Int("from", 0, "skip scenarios with a smaller id")
 	flag.Parse()
@@ -725,6 +756,7 @@ func main() {
 		slog.SetDefault(slog.New(slog.NewTextHandler(io.Discard, nil)))
 	}
 	settle = time.Duration(*settleMs) * time.Millisecond
+	grace = time.Duration(*graceUs) * time.Microsecond
 
 	f, err := os.Open(*in)
 	if err != nil {
